@@ -67,7 +67,7 @@ class TypeQueriesAdapter:
                 w.create_entity(C[i](), entity_id=1)
         # the order and priorities in which processors are added must not matter to by-type lookups: base classes
         # first with equal priorities / subclasses first / subclasses with lower priorities (sorting earlier)
-        pmode = self.counter % 3
+        pmode = self.pmode = self.counter % 3
         for i in sorted((x for x in init['procs'] if x < n), reverse=pmode == 1):
             w.add_processor(P[i](), -i if pmode == 2 else None)
         for cls in C.values():          # a first round of queries before the last class exists
@@ -110,6 +110,12 @@ class TypeQueriesAdapter:
         elif name == 'RemoveProcessor':
             r, ex = guarded(lambda: w.remove_processor(self.P[args[0]]))
             ret = ('proc', args[0], 0 if r is None else self.pn.get(type(r), -1)) if ex is None else ('EXC', type(ex).__name__, 0)
+        elif name == 'AddComponent':
+            _r, ex = guarded(lambda: w.add_component(1, self.C[args[0]]()))
+            ret = ('addc', args[0], args[0]) if ex is None else ('EXC', type(ex).__name__, 0)
+        elif name == 'AddProcessor':
+            _r, ex = guarded(lambda: w.add_processor(self.P[args[0]](), -args[0] if self.pmode == 2 else None))
+            ret = ('addp', args[0], args[0]) if ex is None else ('EXC', type(ex).__name__, 0)
         obs = {'ret': ret}
         obs['get'] = {T: tuple(sorted((e, self.cn.get(type(c), -1)) for e, c in w.get(cls))) for T, cls in self.C.items()}
         gc = {}
